@@ -94,6 +94,8 @@ func init() {
 			exc := m("database/ffldb.newDbCache", "constructor")
 			ruleGuarded(p, r, la, "cacheLock", ff+".dbCache.cachedKeys", exc)
 			ruleGuarded(p, r, la, "cacheLock", ff+".dbCache.cachedRemove", exc)
+			ruleCallUnderLock(p, r, la, "cacheLock", ff+".(*dbCache).Snapshot", "leveldb.DB).GetSnapshot", 1,
+				"the database snapshot and the cache roots must be read in one critical section: flush commits the cache to leveldb and then clears it under the write lock")
 		}
 		ruleTreapFreshness(p, r)
 	})
